@@ -898,14 +898,104 @@ Qed.
 Lemma feature_source_refuted : exists a, feature_lt true a a = Ok true.
 Proof. exists [mkPart 0 10 1]. reflexivity. Qed.
 
-(* CDSCollection.__lt__ is not asymmetric on well-formed collection locations: the whole record
-   and a span over the origin are each "less than" the other (containment shortcut one way,
-   negative start key the other way) *)
-Lemma collection_order_refuted : exists N a b,
-  is_spanb N a = true /\ is_spanb N b = true /\
-  collection_lt a b = Ok true /\ collection_lt b a = Ok true.
+(* CDSCollection.__lt__ after the repair of finding F53 (symmetric containment shortcut): irreflexive
+   and asymmetric on ALL locations (whenever the comparisons do not raise): a < b and b < a never
+   both hold.  Before the repair the whole record [0,N) and a span over the origin were each "less
+   than" the other (containment shortcut one way, negative start key the other way). *)
+Definition clt (a b : loc) : Prop := collection_lt a b = Ok true.
+Lemma collection_lt_irrefl a : ~ clt a a.
 Proof.
-  exists 10, [mkPart 0 10 1], [mkPart 7 10 1; mkPart 0 2 1]. repeat split; reflexivity.
+  unfold clt, collection_lt. rewrite andb_negb_r.
+  destruct (cmp_key (-1) a) as [k|e]; cbn [bind]; [|discriminate].
+  rewrite pair_lt_irrefl. discriminate.
+Qed.
+Lemma collection_lt_asym a b : clt a b -> ~ clt b a.
+Proof.
+  unfold clt, collection_lt. intros H1 H2.
+  destruct (contains a b) eqn:Cab; destruct (contains b a) eqn:Cba; cbn [andb negb] in H1, H2;
+    try discriminate.
+  all: destruct (cmp_key (-1) a) as [ka|ea]; destruct (cmp_key (-1) b) as [kb|eb];
+    cbn [bind] in H1, H2; try discriminate.
+  all: injection H1 as H1; injection H2 as H2; rewrite (pair_lt_asym _ _ H1) in H2; discriminate.
+Qed.
+(* the former witness: the whole record comes first, and only first *)
+Lemma collection_order_witness :
+  collection_lt [mkPart 0 10 1] [mkPart 7 10 1; mkPart 0 2 1] = Ok true /\
+  collection_lt [mkPart 7 10 1; mkPart 0 2 1] [mkPart 0 10 1] = Ok false.
+Proof. split; reflexivity. Qed.
+
+
+(* ---- CDSCollection.__lt__ on the locations a collection can have on a record of length N (one
+   part, or the forward span [s,N)+[0,e) over the origin, e <= s): it is the lexicographic order of
+   a rank - the whole record first, then (start, -length) with the negative start s - N of a span -
+   hence a strict weak order.  (Before the repair of F53 it was not even asymmetric.) ---- *)
+Definition coll_loc (N : Z) (l : loc) : Prop :=
+  (exists p, l = [p] /\ 0 <= ps p /\ ps p < pe p /\ pe p <= N) \/
+  (exists s e, l = [mkPart s N 1; mkPart 0 e 1] /\ 0 < e /\ e <= s /\ s < N).
+Definition rank (N : Z) (l : loc) : Z * Z :=
+  match l with
+  | [p] => if (ps p =? 0) && (pe p =? N) then (- N, - N) else (ps p, - (pe p - ps p))
+  | p :: _ => (ps p - N, - llen l)
+  | [] => (0, 0)
+  end.
+
+Lemma cmp_key_one k p : cmp_key k [p] = Ok (ps p, k * (pe p - ps p + 0)).
+Proof. reflexivity. Qed.
+
+Lemma cmp_key_span k s e N : 0 < e -> e <= s -> s < N ->
+  cmp_key k [mkPart s N 1; mkPart 0 e 1] = Ok (s - N, k * (N - s + (e - 0 + 0))).
+Proof.
+  intros H1 H2 H3. unfold cmp_key, bridges, split_bridging, valid_split, hull_part, part_overlap, in_part, llen.
+  cbn -[Z.ltb Z.leb Z.sub Z.add Z.mul Z.min Z.max Z.opp].
+  destruct (0 <? s) eqn:E; [|lia]. cbn -[Z.ltb Z.leb Z.sub Z.add Z.mul Z.min Z.max Z.opp].
+  destruct (s <? 0) eqn:E2; [lia|]. cbn -[Z.ltb Z.leb Z.sub Z.add Z.mul Z.min Z.max Z.opp].
+  match goal with |- context [if negb ?c then _ else _] => destruct c eqn:E3 end; [|exfalso; lia].
+  reflexivity.
+Qed.
+
+Ltac zc := cbn -[Z.ltb Z.leb Z.eqb Z.sub Z.add Z.mul Z.min Z.max Z.opp].
+
+Lemma collection_lt_rank N a b : coll_loc N a -> coll_loc N b ->
+  collection_lt a b = Ok (pair_lt (rank N a) (rank N b)).
+Proof.
+  intros [(p & -> & Hp)|(s & e & -> & Hs)] [(q & -> & Hq)|(s2 & e2 & -> & Hs2)];
+    unfold collection_lt; rewrite ?cmp_key_one, ?cmp_key_span by lia;
+    unfold contains, part_contains, rank, pair_lt, llen; zc.
+  all: repeat match goal with |- context [if ?c then _ else _] => destruct c eqn:? end; zc; try (f_equal; lia).
+Qed.
+
+Lemma collection_order N a b c : coll_loc N a -> coll_loc N b -> coll_loc N c ->
+  ~ clt a a /\ (clt a b -> ~ clt b a) /\ (clt a b -> clt b c -> clt a c) /\
+  (~ clt a b -> ~ clt b a -> ~ clt b c -> ~ clt c b -> ~ clt a c /\ ~ clt c a).
+Proof.
+  intros Ha Hb Hc. unfold clt.
+  rewrite (collection_lt_rank N a a Ha Ha), (collection_lt_rank N a b Ha Hb),
+          (collection_lt_rank N b a Hb Ha), (collection_lt_rank N b c Hb Hc),
+          (collection_lt_rank N c b Hc Hb), (collection_lt_rank N a c Ha Hc),
+          (collection_lt_rank N c a Hc Ha).
+  rewrite pair_lt_irrefl.
+  set (ka := rank N a). set (kb := rank N b). set (kc := rank N c).
+  split; [|split; [|split]].
+  - intros H. discriminate.
+  - intros H1 H2. injection H1 as H1. injection H2 as H2. rewrite (pair_lt_asym _ _ H1) in H2. discriminate.
+  - intros H1 H2. injection H1 as H1. injection H2 as H2. rewrite (pair_lt_trans _ _ _ H1 H2). reflexivity.
+  - intros N1 N2 N3 N4.
+    assert (E1 : pair_lt ka kb = false) by (destruct (pair_lt ka kb); [exfalso; apply N1|]; reflexivity).
+    assert (E2 : pair_lt kb ka = false) by (destruct (pair_lt kb ka); [exfalso; apply N2|]; reflexivity).
+    assert (E3 : pair_lt kb kc = false) by (destruct (pair_lt kb kc); [exfalso; apply N3|]; reflexivity).
+    assert (E4 : pair_lt kc kb = false) by (destruct (pair_lt kc kb); [exfalso; apply N4|]; reflexivity).
+    destruct (pair_lt_incomp_trans ka kb kc E1 E2 E3 E4) as [H1 H2]. rewrite H1, H2. split; discriminate.
+Qed.
+(* the whole record comes first *)
+Lemma collection_whole_first N st l : 0 < N -> coll_loc N l ->
+  (forall st', l <> [mkPart 0 N st']) -> clt [mkPart 0 N st] l.
+Proof.
+  intros HN Hl Hne. unfold clt. rewrite (collection_lt_rank N _ l); [|left; eexists; split; [reflexivity|cbn; lia]|exact Hl].
+  destruct Hl as [(p & -> & Hp)|(s & e & -> & Hs)]; unfold rank, pair_lt, llen; zc.
+  - rewrite !Z.eqb_refl. zc. destruct ((ps p =? 0) && (pe p =? N)) eqn:E.
+    + exfalso. apply (Hne (pst p)). destruct p; cbn in *. f_equal. f_equal; lia.
+    + zc. f_equal. lia.
+  - rewrite !Z.eqb_refl. zc. f_equal. lia.
 Qed.
 
 
@@ -1285,10 +1375,12 @@ Proof.
   rewrite (Z.min_l 0 (ps p - d + N)) by lia.
   assert (Hmod : 0 <= (pe p + d) mod N < N) by (apply Z.mod_pos_bound; lia).
   destruct (N <? pe p + d) eqn:E4.
-  - destruct ((pe p + d) mod N <? 0) eqn:E5; [lia|]. cbn [bind absorb_lower].
+  - destruct ((pe p + d) mod N <? 0) eqn:E5; [lia|].
+    cbn [bind length andb].
+    change (1 <? Z.of_nat 1) with false. cbn iota.
     assert (Hov2 : part_overlap (mkPart 0 N (pst p)) (mkPart 0 ((pe p + d) mod N) (pst p)) = true).
     { unfold part_overlap, in_part. cbn [ps pe]. lia. }
-    rewrite Hov2. cbn [absorb_lower ps pe pst app]. rewrite (Z.max_l N) by lia.
+    cbn [absorb_lower]. rewrite Hov2. cbn [absorb_lower ps pe pst negb]. rewrite (Z.max_l N) by lia.
     cbn [bind]. unfold part_eqb. cbn [ps pe pst]. rewrite !Z.eqb_refl. reflexivity.
   - cbn [bind]. unfold part_eqb. cbn [ps pe pst]. rewrite !Z.eqb_refl. reflexivity.
 Qed.
